@@ -25,9 +25,26 @@ def synthetic_data():
     }
 
 
+def synthetic_det_data():
+    """deterministic reset and dynamics, stochastic observation: re-seeding and resetting reproduces the SAME state, so
+    the only thing the seed decides is the observation stream"""
+    return {
+        'state_space': {'objects': ['Wall', 'Floor', 'Exit'], 'colors': ['NONE']},
+        'action_space': ['MOVE_FORWARD', 'MOVE_BACKWARD', 'MOVE_LEFT', 'MOVE_RIGHT', 'TURN_LEFT', 'TURN_RIGHT'],
+        'observation_space': {'objects': ['Wall', 'Floor', 'Exit'], 'colors': ['NONE']},
+        'reset_function': {'name': 'empty', 'shape': [5, 6]},
+        'transition_functions': [{'name': 'move_agent'}, {'name': 'turn_agent'}],
+        'reward_functions': [{'name': 'reach_exit', 'reward_on': 5.0, 'reward_off': 0.0}, {'name': 'living_reward', 'reward': -0.05}],
+        'observation_function': {'name': 'stochastic_raytracing', 'area': [[-3, 0], [-2, 2]]},
+        'terminating_function': {'name': 'reach_exit'},
+    }
+
+
 def data_of(name):
     if name == 'synthetic':
         return synthetic_data()
+    if name == 'synthetic_det':
+        return synthetic_det_data()
     paths = dict(configs.all_configs(include_examples=True))
     return configs.load(paths[name])
 
